@@ -375,7 +375,7 @@ func (w *World) setupHyperlane() error {
 	if err := unpackResp(res, &mbResp); err != nil {
 		return err
 	}
-	for _, denom := range HypDenoms {
+	for _, denom := range append(append([]string{}, HypDenoms...), SwapDenom) {
 		res, err = w.run(ctx, &warptypes.MsgCreateCollateralToken{Owner: owner, OriginMailbox: mbResp.Id, OriginDenom: denom})
 		if err != nil {
 			return err
